@@ -399,7 +399,12 @@ pub fn unimplemented(r: &mut Rng) -> String {
         0 => {
             // CSI final outside the implemented table, no prefix
             let f = *r.pick(&['N', 'O', 'Q', 'R', 'U', 'V', 'Y', '[', '\\', ']', '^', '_', 'c', 'i', 'j', 'k', 'n', 'o', 'p', 'q', 'v', 'w', 'x', 'y', 'z', '{', '|', '}', '~']);
-            format!("{}{}{}", csi(r), num(count(r, 5)), f)
+            let ps = if r.chance(1, 3) {
+                r.pick(&["1:2:3:4:5:6:7", "::::::", "4::::::;2", "1:2:3:4:5:6:7:8:9;1:2:3:4:5:6:7:8", "9;8:7:6:5:4:3:2:1", ":::::::1"]).to_string()
+            } else {
+                num(count(r, 5))
+            };
+            format!("{}{}{}", csi(r), ps, f)
         }
         1 => {
             // private marker < = > with any final
@@ -547,9 +552,36 @@ pub fn token(r: &mut Rng, w: &Weights, cols: usize, rows: usize) -> String {
     let t = token_inner(r, w, cols, rows);
     if r.chance(1, 40) {
         stretch_params(r, t)
+    } else if r.chance(1, 60) {
+        stretch_subparams(r, t)
     } else {
         t
     }
+}
+
+/// More ':' sub-parameters than the parser stores (6) on the last parameter of a plain CSI sequence.
+fn stretch_subparams(r: &mut Rng, t: String) -> String {
+    let cs: Vec<char> = t.chars().collect();
+    let start = if cs.len() >= 3 && cs[0] == '\x1b' && cs[1] == '[' {
+        2
+    } else if cs.len() >= 2 && cs[0] == '\u{9b}' {
+        1
+    } else {
+        return t;
+    };
+    let fin = cs.len() - 1;
+    if !(('@'..='~').contains(&cs[fin])) || !cs[start..fin].iter().all(|c| c.is_ascii_digit() || *c == ';' || *c == '?') {
+        return t;
+    }
+    let mut out: String = cs[..fin].iter().collect();
+    for _ in 0..r.range(4, 9) {
+        out.push(':');
+        if r.chance(2, 3) {
+            out.push_str(&format!("{}", r.n(10)));
+        }
+    }
+    out.push(cs[fin]);
+    out
 }
 
 fn token_inner(r: &mut Rng, w: &Weights, cols: usize, rows: usize) -> String {
